@@ -21,10 +21,12 @@ const (
 	mtOctet  = "application/octet-stream"
 	// a media type with a parameter and upper-case letters: has to be relayed verbatim
 	mtOther3 = "application/vnd.Verif.Param+json; version=1.4"
+	// a manifest type with the +json suffix that no layer here interprets: whatever bytes are pushed under it are opaque
+	mtOther4 = "application/vnd.docker.distribution.manifest.v2+json"
 )
 
 var mtConcrete = map[string]string{
-	"image": mtImage, "index": mtIndex, "other": mtOther1, "other2": mtOther2, "other3": mtOther3, "octet": mtOctet,
+	"image": mtImage, "index": mtIndex, "other": mtOther1, "other2": mtOther2, "other3": mtOther3, "other4": mtOther4, "octet": mtOctet,
 }
 
 func mtAbstract(s string) string {
